@@ -23,6 +23,8 @@ func c11(tier string) int {
 		{Family: "grpc-kv", Params: "keys=2", From: 1, To: 3},
 		{Family: "grpc-kv-keys", From: 1, To: 2},
 		{Family: "grpc-iso", Params: "keys=1,slots=2,gc=0,deflevel=1", From: 1, To: 4},
+		// every way of writing inside a transaction (Set, SetReader, Create + Write* + Close)
+		{Family: "grpc-iso", Params: "keys=1,slots=2,gc=0,levels=RC.RR,create=1", From: 1, To: 3},
 		{Family: "grpc-late", Params: "slots=1,levels=RC.RR,nolatewrites=1", From: 1, To: 4},
 	}
 	if tier == "thorough" {
@@ -31,6 +33,7 @@ func c11(tier string) int {
 			{Family: "grpc-kv", Params: "keys=3", From: 1, To: 4},
 			{Family: "grpc-kv-keys", From: 1, To: 3},
 			{Family: "grpc-iso", Params: "keys=2,slots=2,gc=0,deflevel=1", From: 1, To: 5},
+			{Family: "grpc-iso", Params: "keys=1,slots=2,gc=0,create=1", From: 1, To: 4},
 			{Family: "grpc-late", Params: "slots=2,nolatewrites=1", From: 1, To: 5},
 		}
 	}
